@@ -46,13 +46,22 @@ Theorem Gen_deepcopy_ok : deepcopy_ok gen_tc_fields gen_tc_copy_types = true.
 Proof. exact deepcopy_disciplined. Qed.
 Print Assumptions Gen_deepcopy_ok.
 
-(* The only row excused as a KNOWN FINDING: the store that clears schemaInit when a build names a built-in version
-   (the unlocked read in IsNamespaceScoped, F9, was repaired in /repo db2770f and is no longer excused). *)
-Theorem Gen_globals_findings_are_reinit :
-  map (fun r => (a_fn r, a_var r, a_ord r)) (finding_rows var_prots allow_list gen_accesses)
-  = [("SetSchema", "kyaml/openapi.globalSchema.schemaInit", 1%N)].
-Proof. exact globals_findings_are_reinit. Qed.
-Print Assumptions Gen_globals_findings_are_reinit.
+(* No row is excused as a known finding any more: both confirmed races are repaired in /repo
+   (db2770f: read lock in IsNamespaceScoped; 5e76c27: SetSchema keeps the parsed schema for the version in use). *)
+Theorem Gen_globals_no_findings : finding_rows var_prots allow_list gen_accesses = [].
+Proof. exact globals_no_findings. Qed.
+Print Assumptions Gen_globals_no_findings.
+
+(* The reachable stores that clear the init flag (on which the once-reading of initSchema depends) are exactly three,
+   all under the write lock, each excused as a ResetSite that only executes when the schema selection moves to / away
+   from a custom schema or to a different built-in version — never for builds that use the built-in schema. *)
+Theorem Gen_globals_reset_sites :
+  map (fun r => (a_fn r, a_var r, a_ord r, a_ctx r)) (filter (fun r => is_reset_site r && a_reach r) gen_accesses)
+  = [("SetSchema", "kyaml/openapi.globalSchema.schemaInit", 0%N, ["W:kyaml/openapi.schemaLock"]);
+     ("SetSchema", "kyaml/openapi.globalSchema.schemaInit", 1%N, ["W:kyaml/openapi.schemaLock"]);
+     ("dropParsedSchema", "kyaml/openapi.globalSchema", 0%N, ["W:kyaml/openapi.schemaLock"])].
+Proof. exact globals_reset_sites. Qed.
+Print Assumptions Gen_globals_reset_sites.
 
 (* The repaired read: IsNamespaceScoped has rows in the table and all of them are judged disciplined (R:schemaLock). *)
 Theorem Gen_globals_is_ns_scoped_locked :
@@ -61,18 +70,8 @@ Theorem Gen_globals_is_ns_scoped_locked :
 Proof. exact globals_is_ns_scoped_locked. Qed.
 Print Assumptions Gen_globals_is_ns_scoped_locked.
 
-(* Full statement "every access on the build path is disciplined without exception" is still FALSE on the current
-   tree: a reachable store clears the init flag (explicit built-in version) while reachable map reads are justified
-   only by "after initSchema() returned". *)
-Theorem C16_globals_strict_refuted :
-  (exists r, In r gen_accesses /\ a_reach r = true /\ is_reset_site r = true /\
-             a_fn r = "SetSchema" /\ a_var r = "kyaml/openapi.globalSchema.schemaInit" /\ a_val r = "false" /\ a_ord r = 1%N) /\
-  (exists r, In r gen_accesses /\ a_reach r = true /\ a_fn r = "SchemaForResourceType" /\
-             a_kind r = AMapRead /\ a_ctx r = ["A:kyaml/openapi.initSchema"]).
-Proof. exact globals_strict_refuted. Qed.
-Print Assumptions C16_globals_strict_refuted.
-
-(* Default-schema builds are race free: any number of concurrent builds with the call sequences of the current code
+(* Builds that use the built-in schema (no openapi field, or the built-in version spelled out) are race free: any
+   number of concurrent builds with the call sequences of the current code
    (SetSchema(reset); IsNamespaceScoped with the map read under the read lock; SchemaForResourceType = initSchema
    then an unlocked read of the index that only the once-like initSchema body writes) under every schedule. *)
 Theorem C16_race_free_default_schema :
@@ -80,13 +79,9 @@ Theorem C16_race_free_default_schema :
 Proof. exact disciplined_builds_race_free. Qed.
 Print Assumptions C16_race_free_default_schema.
 
-(* For all builds of the property's domain the statement is still FALSE: a build that names a built-in version makes
-   initSchema parse again; that second run (plain writes under the lock) next to a build that is between initSchema()
-   and its unlocked index read has a racy schedule (explicit 11-event trace). *)
-Theorem C16_race_free_refuted :
-  exists tr, schedule_of [schema_for_call; reinit_call] tr /\ race tr.
-Proof. exact reinit_race. Qed.
-Print Assumptions C16_race_free_refuted.
+(* (The former C16_race_free_refuted — the re-run of initSchema provoked by an explicit built-in version racing with the
+   unlocked reads — is kept as the regression example ConcExamples.reinit_race: since /repo 5e76c27 a build that names the
+   version in use no longer re-arms initSchema, so its call sequence is the one of build_a.) *)
 
 (* Result independence. Builds that use the built-in schema (no openapi field or the default version spelled
    out, also in sub-kustomizations), run concurrently under ANY schedule of their atomic schema actions:
